@@ -48,6 +48,7 @@ func VC_C15_jumpBack() {
 	before := m
 	vstore(from, code)
 	jumped := m.runFrom(uint64(from))
+	verifWitness("landing", m.rip)
 	verifAssert(m.ok && jumped, "C15.jumpBack.known-encoding")
 	if code[0] == 0xe9 {
 		verifAssert(m.rip == uint64(to), "C15.jumpBack.rel.lands")
